@@ -146,7 +146,23 @@ impl OutputFormatter {
         let schema = batches[0].schema();
 
         // Write header
-        let headers: Vec<&str> = schema.fields().iter().map(|f| f.name().as_str()).collect();
+        // Column names follow the same RFC 4180 quoting rule as the cells
+        let headers: Vec<String> = schema
+            .fields()
+            .iter()
+            .map(|f| {
+                let name = f.name();
+                if name.contains(',')
+                    || name.contains('"')
+                    || name.contains('\n')
+                    || name.contains('\r')
+                {
+                    format!("\"{}\"", name.replace('"', "\"\""))
+                } else {
+                    name.clone()
+                }
+            })
+            .collect();
         writeln!(writer, "{}", headers.join(","))?;
 
         // Write data rows
@@ -269,8 +285,13 @@ impl OutputFormatter {
 
         let value = self.format_display_value(array, row);
 
-        // Quote if contains comma, quote, or newline
-        if value.contains(',') || value.contains('"') || value.contains('\n') {
+        // Quote if contains comma, quote, line feed or carriage return (RFC 4180: CR and LF
+        // may only appear inside a quoted field)
+        if value.contains(',')
+            || value.contains('"')
+            || value.contains('\n')
+            || value.contains('\r')
+        {
             format!("\"{}\"", value.replace('"', "\"\""))
         } else {
             value
